@@ -164,6 +164,10 @@ pub fn check_callbacks(rep: &Reply, accounting: bool) -> Result<(usize, usize), 
                 if !*ok {
                     return Err(format!("create_node_{kind} announced node {r}, which is not a closed `{kind}` rule node at that instant"));
                 }
+                if dump == "<omitted>" {
+                    // the runner stopped dumping subtrees (size cap): counted, not audited
+                    continue;
+                }
                 if dump == "<reading the announced node panics>" {
                     return Err(format!("create_node_{kind} announced node {r}; reading its children at that instant panics (extent beyond the node vector)"));
                 }
